@@ -567,6 +567,9 @@ func boundsAt(ins ssa.Instruction) []Atom { return factsAt(ins.Block()) }
 
 // proveSlice decides low/high bounds of a Slice instruction: 0 <= low <= high <= len(x).
 func (pv *prover) proveSlice(s *ssa.Slice) (bool, string) {
+	if wholeCapSlice(s) {
+		return true, "0 <= cap(s) <= cap(s)"
+	}
 	facts := boundsAt(s)
 	ln := lenOf(s.X)
 	if at, ok := deref(s.X.Type()).Underlying().(interface{ Len() int64 }); ok && ln.isLen {
@@ -655,4 +658,51 @@ func slicesIndexOperand(call *ssa.Call) ssa.Value {
 		}
 	}
 	return nil
+}
+
+// wholeCapSlice: s[:cap(s)] — the whole backing array — is always in range. The two mentions of
+// s may be two loads of the same address with nothing in between that could store to it.
+func wholeCapSlice(s *ssa.Slice) bool {
+	if s.Low != nil || s.High == nil || s.Max != nil {
+		return false
+	}
+	call, ok := strip(s.High).(*ssa.Call)
+	if !ok {
+		return false
+	}
+	b, isB := call.Call.Value.(*ssa.Builtin)
+	if !isB || b.Name() != "cap" || len(call.Call.Args) != 1 {
+		return false
+	}
+	a, x := strip(call.Call.Args[0]), strip(s.X)
+	if a == x || canonLoad(a) == canonLoad(x) {
+		return true
+	}
+	la, okA := a.(*ssa.UnOp)
+	lx, okX := x.(*ssa.UnOp)
+	if !okA || !okX || la.Op != token.MUL || lx.Op != token.MUL || la.X != lx.X || la.Block() != lx.Block() {
+		return false
+	}
+	in := false
+	for _, ins := range la.Block().Instrs {
+		if ins == ssa.Instruction(la) || ins == ssa.Instruction(lx) {
+			if in {
+				return true
+			}
+			in = true
+			continue
+		}
+		if !in {
+			continue
+		}
+		switch y := ins.(type) {
+		case *ssa.Store:
+			return false
+		case *ssa.Call:
+			if _, isB := y.Call.Value.(*ssa.Builtin); !isB {
+				return false
+			}
+		}
+	}
+	return false
 }
